@@ -4,6 +4,7 @@ CONSTANTS
   Dev_AfterSpawnKillDetached = TRUE
   Dev_BuiltinIgnoreList = TRUE
   Dev_AddEmptyNameReturns = FALSE
+  Dev_QuitRefusedWhenBusy = FALSE
 INIT Init
 NEXT Next
 CONSTRAINT Progress
